@@ -97,7 +97,19 @@ func c14CaseMulti(root *vw.Rng, ci int) {
 	if r.Chance(2, 3) {
 		w.Restart, w.Leader = 0, 0
 	}
-	w.Round, w.MaxRounds = 12, 10
+	w.Round, w.MaxRounds = 12, 12
+	// prelude, no other fault: one round per position of a tract in its piece with ALL its sources unreachable during
+	// PackTracts (the piece must fail and the chunk be abandoned: nothing is committed, the tracts stay for later rounds)
+	positions := []int{0, 2}
+	if k > 2 {
+		positions = []int{0, 1, 2}
+	}
+	for _, pi := range r.Perm(len(positions)) {
+		d.PackPlan = []int{positions[pi]*3 + 2}
+		d.StartRound()
+		d.Quiesce()
+	}
+	d.PackPlan = nil
 	if r.Chance(2, 3) {
 		// one planned pack fault per round: (first|middle|last) x (one|several|all sources), every combination in turn
 		d.PackPlan = r.Perm(9)
